@@ -19,7 +19,7 @@ from pdfminer.pdfcolor import PDFColorSpace
 from pdfminer.pdfexceptions import PDFTypeError, PDFValueError
 from pdfminer.pdffont import PDFFont
 from pdfminer.pdfinterp import Color, PDFGraphicState
-from pdfminer.pdftypes import PDFStream
+from pdfminer.pdftypes import PDFStream, resolve1
 from pdfminer.utils import (
     INF,
     LTComponentT,
@@ -323,10 +323,14 @@ class LTImage(LTComponent):
         LTComponent.__init__(self, bbox)
         self.name = name
         self.stream = stream
-        self.srcsize = (stream.get_any(("W", "Width")), stream.get_any(("H", "Height")))
-        self.imagemask = stream.get_any(("IM", "ImageMask"))
-        self.bits = stream.get_any(("BPC", "BitsPerComponent"), 1)
-        self.colorspace = stream.get_any(("CS", "ColorSpace"))
+        # any of these entries may be spelled as an indirect reference
+        self.srcsize = (
+            resolve1(stream.get_any(("W", "Width"))),
+            resolve1(stream.get_any(("H", "Height"))),
+        )
+        self.imagemask = resolve1(stream.get_any(("IM", "ImageMask")))
+        self.bits = resolve1(stream.get_any(("BPC", "BitsPerComponent"), 1))
+        self.colorspace = resolve1(stream.get_any(("CS", "ColorSpace")))
         if not isinstance(self.colorspace, list):
             self.colorspace = [self.colorspace]
 
